@@ -104,6 +104,31 @@
       of that name is NOT found: `AttributeError`); `object.__setattr__(self, n, v)` is `Expr.outside`: not modelled, an error;
     * `self._ensureHtmlAttribute()` is a parameter (`Ctx.selfMeth`): it writes the attribute store of the tag the style
       belongs to, not the style object (the translator checks its exact body).
+
+  Extension for the parsers' tag handlers (`Parser.AdvancedHTMLParser.handle_endtag`, `Validator.ValidatingAdvancedHTMLParser.
+  handle_endtag` / `handle_starttag`; the ties are `Props/C02Code.lean`, `Props/C13Code.lean`).  Further assumptions:
+
+    * the receiver is `obj fields` (the translator checks that the class defines no `__getattr__` / `__getattribute__` /
+      `__setattr__` and that no class-level name hides a field the method uses); `x = self.f` (`Stmt.alias`) may also stand directly
+      inside a `try:` at the top level of the body; `x.pop()` through such a second name is `Stmt.refCall` (`list.pop()`: the list
+      without its last item, `IndexError` on an empty list);
+    * the items of the list of open elements are elements identified by a number (`PyV.ancestor u`); `l[i].a` (`Expr.elemAttr`:
+      the translator emits it for an attribute of a subscript of the aliased list, for the attribute names it is told) is
+      `Ctx.elemAttr u a`, a parameter: the methods only read it;
+    * `range(n)` is the tuple of the numbers `0 … n-1`; the translator accepts it as the iterable of a `for` only;
+    * `[e for x in l]` (`Expr.compFor`) over a list: `e` for the items in order, `x` bound in an environment of its own;
+    * `x op= e` on a local variable is dumped as `x = x op e` (`+ - *` give numbers and texts only here: no in-place variant);
+    * instantiating a library exception class gives `excInst` of its name, the arguments evaluated and dropped: the constructors
+      of `exceptions.py` are taken to return normally;
+    * `Val.pairs`: a Python list of 2-tuples of model values (the attribute list of `handle_starttag`); `for (a, b) in x`
+      (`Stmt.forPair`) binds both names per item and checks after every iteration that the iterable, evaluated again, still is
+      that list (a variable holding it; `d.items()` of a dict in a field: the pairs of the dict); a plain `for` over it yields the
+      2-tuples;
+    * `'literal' % (a, b)` / `'literal' % a` (`Expr.format`) with `%s` directives only: `pyFormat` (`str()` of each argument);
+    * `isinstance(x, C)` (`Expr.isInstance`) on a model value: its class (`typeName`) IS `C` — an element is an `AdvancedTag`
+      (subclasses are not told apart); `text.endswith(suffix)`;
+    * `return Base.m(self, args)` (`Stmt.retBase`) is `Ctx.baseMeth m`, a parameter like `Ctx.meths`: what the base class's method
+      does to the object and returns (the translator checks the single base class and where it is imported from).
 -/
 import AHP.Model.Basic
 import AHP.Model.Conv
@@ -142,6 +167,7 @@ inductive Val where
   | set (vs : List PyV)            -- a Python set of hashable model values
   | bound (o m : String)           -- the bound method `o.m` of the object that the local variable `o` holds
   | ref (o f : String)             -- a second name of the object in the field `f` of the object that the variable `o` holds
+  | pairs (kvs : List (PyV × PyV)) -- a Python list of 2-tuples of model values (the attribute list a parser callback receives)
   deriving DecidableEq, Repr, Inhabited
 
 def Field.toVal : Field → Val
@@ -166,6 +192,7 @@ def Val.mutable : Val → Bool
   | .lock _ => true
   | .obj _ => true
   | .set _ => true
+  | .pairs _ => true
   | _ => false
 
 def unsupported (what : String) : PyErr := .other ("unsupported:" ++ what)
@@ -177,6 +204,7 @@ def Val.truthy : Val → Bool
   | .list vs => !vs.isEmpty
   | .dict kvs => !kvs.isEmpty
   | .set vs => !vs.isEmpty
+  | .pairs kvs => !kvs.isEmpty
   | _ => true
 
 /-- `a == b` on model values. -/
@@ -214,6 +242,7 @@ def pyEq (x y : Val) : Except PyErr Bool :=
   | .set _ => (match y with | .set _ => .error (unsupported "==") | _ => .ok false)
   | .bound _ _ => (match y with | .bound _ _ => .error (unsupported "==") | _ => .ok false)
   | .ref _ _ => .error (unsupported "==")
+  | .pairs _ => .error (unsupported "==")
 
 /-- Objects of which there is exactly one: `is` is then structural equality of the representation. -/
 def Val.unique : Val → Bool
@@ -348,6 +377,7 @@ def getAttr (x : Val) (a : String) : Except PyErr Val :=
     | .set _ => .ok (.cls "set")
     | .bound _ _ => .ok (.cls "method")
     | .ref _ _ => .error (unsupported "attribute of an alias")
+    | .pairs _ => .ok (.cls "list")
   else
     match x with
     | .obj fs => (match fs.lookup a with | some fv => .ok fv.toVal | none => .error (.other "AttributeError"))
@@ -448,6 +478,10 @@ def callMethod (x : Val) (m : String) (args : List Val) : Except PyErr Val :=
       (match args with
        | [.py (.str a)] => .ok (.py (.bool (a.isPrefixOf s)))
        | _ => .error (unsupported "startswith of something else than a text"))
+    else if m = "endswith" then
+      (match args with
+       | [.py (.str a)] => .ok (.py (.bool (a.isSuffixOf s)))
+       | _ => .error (unsupported "endswith of something else than a text"))
     else if m = "replace" then
       (match args with
        | [.py (.str a), .py (.str b)] =>
@@ -471,6 +505,10 @@ def callMethod (x : Val) (m : String) (args : List Val) : Except PyErr Val :=
        | [.py k] => if hashable k then .ok (.py ((dGet kvs k).getD .none)) else .error (unsupported "dict key")
        | [.py k, .py d] => if hashable k then .ok (.py ((dGet kvs k).getD d)) else .error (unsupported "dict key")
        | _ => .error (unsupported "dict.get"))
+    else if m = "items" then
+      (match args with
+       | [] => .ok (.pairs kvs)
+       | _ => .error .typeError)
     else .error (unsupported ("method " ++ m))
   | .py (.ancestor u) =>
     if m = "getUid" then
@@ -500,6 +538,10 @@ def mutCall (fv : Field) (m : String) (args : List Val) : Except PyErr Field :=
        | [.py v] => (match removeFirst v vs with | some vs' => .ok (.list vs') | none => .error .valueError)
        | [_] => .error (unsupported "list of objects")
        | _ => .error .typeError)
+    else if m = "pop" then
+      (match args with
+       | [] => if vs.isEmpty then .error (.other "IndexError") else .ok (.list vs.dropLast)
+       | _ => .error (unsupported "pop with an argument"))
     else .error (unsupported ("statement method " ++ m))
   | .lock h =>
     if m = "acquire" then
@@ -541,6 +583,28 @@ def baseCall (cur : Option Field) (m : String) (args : List Val) : Except PyErr 
     match cur with
     | some (.list vs) => if m = "append" || m = "remove" then mutCall (.list vs) m args else .error (unsupported ("list." ++ m))
     | _ => .error (unsupported "not a list object")
+
+/-- `fmt % args` for a format text whose only directives are `%s` (`str()` of the argument): too few / too many arguments
+are a `TypeError`; any other directive is refused. -/
+def pyFormat : Str → List PyV → Except PyErr Str
+  | [], vs => if vs.isEmpty then .ok [] else .error .typeError
+  | c :: r, vs =>
+    if c = '%' then
+      (match r with
+       | d :: r' =>
+         if d = 's' then
+           (match vs with
+            | v :: vs' => (match pyFormat r' vs' with | .ok t => .ok (tostr v ++ t) | .error e => .error e)
+            | [] => .error .typeError)
+         else .error (unsupported "format directive other than %s")
+       | [] => .error .valueError)
+    else (match pyFormat r vs with | .ok t => .ok (c :: t) | .error e => .error e)
+
+/-- the arguments of a format: model values only -/
+def pyVals : List Val → Option (List PyV)
+  | [] => some []
+  | .py v :: r => (match pyVals r with | some vs => some (v :: vs) | none => none)
+  | _ :: _ => none
 
 inductive BinOp where
   | add | sub | mul
@@ -614,6 +678,7 @@ def pyLen : Val → Except PyErr Val
   | .tuple vs => .ok (.py (.int vs.length))
   | .dict kvs => .ok (.py (.int kvs.length))
   | .set vs => .ok (.py (.int vs.length))
+  | .pairs kvs => .ok (.py (.int kvs.length))
   | .py .none => .error .typeError
   | .py (.int _) => .error .typeError
   | .py (.bool _) => .error .typeError
@@ -675,6 +740,10 @@ def builtin (parseInt : Str → Except PyErr Int) (f : String) (args : List Val)
     | [.tuple vs] => .ok (.list vs)
     | [.obj fs] => (match fs.lookup listPart with | some (.list vs) => .ok (.list vs) | _ => .error (unsupported "list"))
     | _ => .error (unsupported "list")
+  else if f = "range" then
+    match args with
+    | [.py (.int n)] => .ok (.tuple ((List.range n.toNat).map (fun i => .int (Int.ofNat i))))
+    | _ => .error (unsupported "range of something else than one integer")
   else .error (.other "NameError")
 
 /-! ### syntax -/
@@ -711,6 +780,10 @@ inductive Expr where
   | compItems (k v : String) (elt d : Expr)             -- [elt for k, v in d.items()]
   | objAttr (o : String) (n : Expr)                     -- object.__getattribute__(o, n): the plain attribute named by `n`
   | outside (what : String)                             -- a call the interpreter does not model: evaluates to an error
+  | elemAttr (e : Expr) (a : String)                    -- e.a, e an item of a list of elements (`l[i].a`): `Ctx.elemAttr`
+  | compFor (x : String) (elt it : Expr)                -- [elt for x in it]
+  | format (fmt : Str) (args : List Expr)               -- 'fmt' % (args), 'fmt' % arg: the format text is a literal
+  | isInstance (e : Expr) (cls : String)                -- isinstance(e, C) for a class C named in the source
   deriving Repr, Inhabited
 
 /-- Does the expression CREATE the list it evaluates to (so that no other name reaches the same object)? -/
@@ -724,6 +797,7 @@ def Expr.makesNew : Expr → Bool
   | .sliceAll _ => true
   | .construct _ _ => true          -- (a constructor that kept one of its mutable arguments is refused: `callMeth`)
   | .compItems .. => true
+  | .compFor .. => true
   | .call f _ => f = "list"         -- the builtin `list(x)` (the guard `aliasOK` checks that no function of the module hides it)
   | .meth _ m _ => m = "split"      -- `text.split(sep)` (a method of `self` never returns a mutable object: `eval`)
   | _ => false
@@ -756,6 +830,9 @@ inductive Stmt where
   | alias (x o f : String)                              -- x = o.f, making x a second name of the object in the field
   | setItemRef (x : String) (k v : Expr)                -- x[k] = v, x such a second name (of a dict)
   | delItemRef (x : String) (k : Expr)                  -- del x[k], x such a second name (of a dict)
+  | refCall (x m : String) (args : List Expr)           -- x.m(args) as a statement, x such a second name (of a list: `pop`, …)
+  | forPair (a b : String) (it : Expr) (body : List Stmt)   -- for (a, b) in it: …, `it` giving a list of 2-tuples
+  | retBase (o m : String) (args : List Expr)           -- return Base.m(o, args): the method `m` of the base class (`Ctx.baseMeth`)
 inductive Handler where
   | mk (type : Option String) (body : List Stmt)        -- `except:` (none) / `except T:` (some T)
   | mkAs (type : String) (name : String) (body : List Stmt)   -- `except T as name:`
@@ -814,6 +891,7 @@ def iterItems : Val → Option (List Val)
   | .list vs => some (vs.map .py)
   | .tuple vs => some (vs.map .py)
   | .dict kvs => some (kvs.map (fun p => .py p.1))
+  | .pairs kvs => some (kvs.map (fun p => .tuple [p.1, p.2]))
   | _ => none
 
 /-- What a method of the class does, given the fields of the receiver and the arguments: the fields afterwards (`none`: the
@@ -834,6 +912,10 @@ structure Ctx where
   cls : String := ""
   /-- the dumped methods of that class that are visible (`methIn`: those EARLIER in the dependency order), by name -/
   meths : String → Option MethSem := fun _ => none
+  /-- the attributes of the elements (by number) that the code reads from items of a list of elements: parameters -/
+  elemAttr : Nat → String → Option Val := fun _ _ => none
+  /-- methods of the base class called as `Base.m(self, args)`: parameters (what they do to the object, what they return) -/
+  baseMeth : String → Option MethSem := fun _ => none
 
 /-- `x = v` in an association list (the local variables; the fields of an object): an existing binding is replaced where
 it is, a new one is added at the end. -/
@@ -1054,6 +1136,31 @@ def eval (cx : Ctx) (env : Env) : Expr → Except PyErr Val
         | _ => .error (unsupported "object.__getattribute__ of something else than self"))
      | .ok _ => .error .typeError)
   | .outside what => .error (unsupported what)
+  | .elemAttr e a =>
+    (match eval cx env e with
+     | .error err => .error err
+     | .ok (.py (.ancestor u)) => (match cx.elemAttr u a with | some v => .ok v | none => .error (.other "AttributeError"))
+     | .ok _ => .error (unsupported "attribute of an item that is not an element"))
+  | .compFor x elt it =>
+    (match eval cx env it with
+     | .error err => .error err
+     | .ok (.list vs) =>
+       (match collectPy (vs.map (fun v => eval cx (assocSet env x (.py v)) elt)) with
+        | .ok rs => .ok (.list rs)
+        | .error err => .error err)
+     | .ok _ => .error (unsupported "comprehension over something else than a list"))
+  | .format fmt args =>
+    (match evalList cx env args with
+     | .error err => .error err
+     | .ok vs =>
+       (match pyVals vs with
+        | some ps => (match pyFormat fmt ps with | .ok t => .ok (.py (.str t)) | .error err => .error err)
+        | none => .error (unsupported "format of an object")))
+  | .isInstance e c =>
+    (match eval cx env e with
+     | .error err => .error err
+     | .ok (.py v) => .ok (.py (.bool (typeName v = c)))
+     | .ok _ => .error (unsupported "isinstance of an object"))
 def evalList (cx : Ctx) (env : Env) : List Expr → Except PyErr (List Val)
   | [] => .ok []
   | e :: es =>
@@ -1225,6 +1332,43 @@ def execS (cx : Ctx) (env : Env) : Stmt → Env × Res
        (match env.lookup x with
         | some (.ref o f) => delItemAt env o f kv
         | some _ => (env, .exc (unsupported "a variable that is not a second name of a field"))
+        | none => (env, .exc (.other "UnboundLocalError"))))
+  | .refCall x m args =>
+    (match evalList cx env args with
+     | .error err => (env, .exc err)
+     | .ok vs =>
+       (match env.lookup x with
+        | some (.ref o f) =>
+          (match getField env o f with
+           | .error err => (env, .exc err)
+           | .ok fv =>
+             (match mutCall fv m vs with
+              | .error err => (env, .exc err)
+              | .ok fv' => ((putField env o f fv').1, .next)))
+        | some _ => (env, .exc (unsupported "a variable that is not a second name of a field"))
+        | none => (env, .exc (.other "UnboundLocalError"))))
+  | .forPair a b it body =>
+    (match eval cx env it with
+     | .error err => (env, .exc err)
+     | .ok (.pairs kvs) =>
+       forLoop (fun env v => match v with | .tuple [x, y] => assocSet (assocSet env a (.py x)) b (.py y) | _ => env)
+         (fun env => execL cx env body) (fun env' => decide (eval cx env' it = .ok (.pairs kvs)))
+         (kvs.map (fun p => .tuple [p.1, p.2])) env
+     | .ok _ => (env, .exc (unsupported "unpacking iteration over something else than a list of pairs")))
+  | .retBase o m args =>
+    (match evalList cx env args with
+     | .error err => (env, .exc err)
+     | .ok vs =>
+       (match env.lookup o with
+        | some (.obj fs) =>
+          (match cx.baseMeth m with
+           | none => (env, .exc (.other "AttributeError"))
+           | some g =>
+             (match g fs vs with
+              | (some fs', .ok v) => (assocSet env o (.obj fs'), .ret v)
+              | (some fs', .error e) => (assocSet env o (.obj fs'), .exc e)
+              | (none, _) => (env, .abort "a method lost its object")))
+        | some _ => (env, .exc (unsupported "base method of something else than self"))
         | none => (env, .exc (.other "UnboundLocalError"))))
 def execL (cx : Ctx) (env : Env) : List Stmt → Env × Res
   | [] => (env, .next)
